@@ -89,16 +89,26 @@ def traces(c, m, consts, runs, seed, label, extra, must_count):
     if not res.get("errors"):
         need(c, "trace " + label, res.get("counters", {}), *must_count)
     c.sample(dict(kind="recorded cluster run (%s), first events" % label, events=runs_[0][1][:12]))
-    # binding self-test: a Restart that claims another worker count than the one that really ran must be rejected
-    k = next((i for i, e in enumerate(events) if e.get("op") == "Restart" and i < 3000), None)
-    if k is not None:
-        bad_events = [dict(e) for e in events[:k + 40]]
-        others = [n for n in extra.get("Counts", []) if n != bad_events[k]["w"]]
-        if others:
-            bad_events[k]["w"] = others[0]
-            ok2, at2, _ = vlib.validate_trace("RecoveryTrace", dict(tc, Dev_AssignUnsorted=m.DEV_ASSIGN), bad_events)
-            if ok2 and any(e.get("op") == "Deliver" for e in bad_events[k:]):
-                c.errors.append("recovery trace %s: self-test: a Restart with a wrong worker count was accepted" % label)
+    # binding self-test: after a rescaling restart, a Deliver attributed to another operator than the key's owner
+    # under the NEW worker count must be rejected at exactly that event
+    k = None
+    w = None
+    for i, e in enumerate(events[:3000]):
+        if e.get("op") in ("Start", "Restart") and "w" in e:
+            w = e["w"]
+        elif e.get("op") == "Reset":
+            w = None
+        elif e.get("op") == "Deliver" and w is not None and w != consts["W"]:
+            k = i
+            break
+    if k is None:
+        c.errors.append("recovery trace %s: self-test found no Deliver in a rescaled generation" % label)
+    else:
+        bad_events = [dict(e) for e in events[:k + 1]]
+        bad_events[k]["o"] = bad_events[k]["o"] % max(w, 2) + 1
+        ok2, at2, _ = vlib.validate_trace("RecoveryTrace", dict(tc, Dev_AssignUnsorted=m.DEV_ASSIGN), bad_events)
+        if ok2 or at2 != k + 1:
+            c.errors.append("recovery trace %s: self-test: Deliver by a non-owner (of %d workers) at line %d not rejected there (accepted=%s at=%s)" % (label, w, k + 1, ok2, at2))
 
 
 def replay_trace(c, m, payload):
